@@ -18,6 +18,11 @@ func TestC02Regress(t *testing.T) {
 		{"glyf.Decode", append([]byte{0, 0, 4, 0, 0, 0, 10}, []byte{0, 2, 0, 0, 0, 0, 0, 0, 0, 0, 0, 5, 0, 1, 0, 0, 1, 1, 1, 1, 1, 1}...)},
 		// cmap format 0 under (1,0): Lookup(-1)
 		{"cmap.Decode", append([]byte{0, 0, 0, 1, 0, 1, 0, 0, 0, 0, 0, 12, 0, 0, 1, 6, 0, 0}, make([]byte, 256)...)},
+		// GPOS pair adjustment format 2 whose value formats have reserved bits only: 255 x 256 records of no bytes,
+		// decoded as empty non-nil records, which the encoder wrote with two bytes each: offsets beyond 64 KiB
+		{"gtab.Read/GPOS", zeroSizeRecordTable(true, 1, 0x0100, 255, 256)},
+		{"gtab.Read/GPOS", zeroSizeRecordTable(true, 1, 0xFF00, 255, 256)},
+		{"gtab.Read/GPOS", zeroSizeRecordTable(false, 1, 0x8000, 65535, 0)},
 	}
 	for _, c := range cases {
 		tg := targetByName(c.target)
